@@ -141,13 +141,16 @@ def expected_coq(res):
     return f'(XHost {cstr(res.get("host", "?"))})'
 
 
-def run_term(case, res, model_stmts, fuel=20000):
+def run_term(case, res, model_stmts, fuel=20000, files=None):
     """N-valued term: does the model agree with the implementation's result [res] on this case?
     model_stmts: canonical statement list (the implementation's own parse of the text, or the hand-built model)."""
     enc = WorldEnc()
     world = enc.world(case.get('globals', {}))
     mx = case.get('max', 10**9)
     cfg = f'(mkcfg {cZ(mx)} {cbool(bool(case.get("debug")))} {cbool(case.get("log", True))})'
+    if files:
+        ftab = clist([f'({cstr(u)}, {cstr(t)})' for u, t in files.items() if isinstance(t, str)])
+        cfg = f'(mkcfg_files {cZ(mx)} {cbool(bool(case.get("debug")))} {cbool(case.get("log", True))} {ftab})'
     xg = clist([f'({cstr(k)}, {tree_coq(v)})' for k, v in res['globals']])
     return (f'check_run {cfg} (Z.to_nat {cZ(fuel)}) {scriptgen.script_coq(model_stmts)} {world} {expected_coq(res)} '
             f'{clist([cstr(s) for s in res["log"]])} {xg} {cZ(res["count"])}')
